@@ -452,21 +452,21 @@ func tail(s string) string {
 func run(r *vh.Run, part string) {
 	switch part {
 	case "notif-streamable":
-		for _, cfg := range [][3]int{{1, 1, 40}, {4, 4, 60}, {16, 8, r.Pick(60, 600)}} {
+		for _, cfg := range [][3]int{{1, 1, 40}, {4, 4, 60}, {16, 8, r.Pick(60, 2500)}} {
 			notifications(r, kit.SJSON, cfg[0], cfg[1], cfg[2], 7)
 		}
-		notifications(r, kit.SSSE, 8, 4, r.Pick(80, 800), 5)
+		notifications(r, kit.SSSE, 8, 4, r.Pick(80, 3000), 5)
 	case "notif-legacy":
-		for _, cfg := range [][3]int{{1, 1, 40}, {8, 4, r.Pick(60, 600)}} {
+		for _, cfg := range [][3]int{{1, 1, 40}, {8, 4, r.Pick(60, 2500)}} {
 			notifications(r, kit.LSSE, cfg[0], cfg[1], cfg[2], 9)
 		}
 	case "roots-streamable":
-		roots(r, kit.SJSON, 1, r.Pick(3, 20))
-		roots(r, kit.SJSON, 4, r.Pick(5, 50))
+		roots(r, kit.SJSON, 1, r.Pick(3, 80))
+		roots(r, kit.SJSON, 4, r.Pick(5, 200))
 	case "roots-legacy":
-		roots(r, kit.LSSE, 1, r.Pick(3, 20))
-		roots(r, kit.LSSE, 4, r.Pick(5, 50))
+		roots(r, kit.LSSE, 1, r.Pick(3, 80))
+		roots(r, kit.LSSE, 4, r.Pick(5, 200))
 	case "roots-stdio":
-		roots(r, kit.Stdio, 1, r.Pick(5, 50))
+		roots(r, kit.Stdio, 1, r.Pick(5, 200))
 	}
 }
